@@ -67,8 +67,10 @@ func createStructDesc(rv reflect.Value) (*structDesc, error) {
 	}
 	sd, err := newStructDescAndPrefetch(rt)
 	if err != nil {
+		rollbackPending()
 		return nil, err
 	}
+	commitPending()
 	sds.Set(abiType, sd)
 	verifYield(verifYieldBetweenSets)
 	if rv.Kind() == reflect.Ptr {
@@ -79,6 +81,31 @@ func createStructDesc(rv reflect.Value) (*structDesc, error) {
 
 var prefetchStructDescCache = map[reflect.Type]*structDesc{}
 
+// Work of the createStructDesc call in progress (guarded by sdsmu): cache
+// entries added and tTypes linked to a structDesc. tTypes are shared through
+// the ttypes cache, so when the call fails every link to a descriptor of the
+// failed attempt must be undone: otherwise a later type reusing such a tType
+// would be accepted with a half-built descriptor behind it.
+var (
+	pendingDescs []reflect.Type
+	pendingTypes []*tType
+)
+
+func commitPending() {
+	pendingDescs = pendingDescs[:0]
+	pendingTypes = pendingTypes[:0]
+}
+
+func rollbackPending() {
+	for _, t := range pendingTypes {
+		t.Sd = nil
+	}
+	for _, k := range pendingDescs {
+		delete(prefetchStructDescCache, k)
+	}
+	commitPending()
+}
+
 func newStructDescAndPrefetch(t reflect.Type) (*structDesc, error) {
 	if sd := prefetchStructDescCache[t]; sd != nil {
 		return sd, nil
@@ -88,6 +115,7 @@ func newStructDescAndPrefetch(t reflect.Type) (*structDesc, error) {
 		return nil, err
 	}
 	prefetchStructDescCache[t] = sd
+	pendingDescs = append(pendingDescs, t)
 	verifYield(verifYieldAfterCacheInsert)
 	if err := prefetchSubStructDesc(sd); err != nil {
 		delete(prefetchStructDescCache, t)
@@ -128,6 +156,7 @@ func fetchStructDesc(t *tType) error {
 		return err
 	}
 	t.Sd = sd
+	pendingTypes = append(pendingTypes, t)
 	return nil
 }
 
